@@ -318,6 +318,39 @@ class Function:
         return seen
 
     # ---- value description --------------------------------------------------------------
+    INV = {'eq': 'ne', 'ne': 'eq', 'slt': 'sge', 'sge': 'slt', 'sgt': 'sle', 'sle': 'sgt', 'ult': 'uge', 'uge': 'ult', 'ugt': 'ule', 'ule': 'ugt',
+           'olt': 'uge', 'oge': 'ult', 'ogt': 'ule', 'ole': 'ugt', 'oeq': 'une', 'une': 'oeq'}
+
+    def cond(self, o):
+        """normal form of a branch condition: (comparison Inst or None, effective predicate, operands) after peeling
+        logical negations (xor true, == 0 of a boolean) and integer casts"""
+        neg = False
+        for _ in range(12):
+            x = self.v(o)
+            if x is None:
+                return None, None, None
+            if x.op in ('zext', 'sext', 'trunc', 'freeze'):
+                o = x.a[0]; continue
+            if x.op == 'xor' and any(a[0] == 'c' and int(a[1]) in (1, -1) for a in x.a):
+                o = [a for a in x.a if a[0] != 'c'][0]; neg = not neg; continue
+            if x.op == 'icmp' and x.pred in ('eq', 'ne') and any(a[0] == 'c' and int(a[1]) == 0 for a in x.a):
+                other = [a for a in x.a if not (a[0] == 'c' and int(a[1]) == 0)]
+                if other:
+                    y = self.v(other[0])
+                    while y is not None and y.op in ('zext', 'sext'):
+                        y = self.v(y.a[0])
+                    if y is not None and (y.op in ('icmp', 'fcmp') or (y.op == 'xor' and y.ty == 'i1') or (y.op == 'phi' and y.ty == 'i1')):
+                        if x.pred == 'eq':
+                            neg = not neg
+                        o = other[0]; continue
+            if x.op in ('icmp', 'fcmp'):
+                p = x.pred
+                if neg:
+                    p = self.INV.get(p, p)
+                return x, p, x.a
+            return x, ('not' if neg else 'is'), [o]
+        return None, None, None
+
     def strip_casts(self, o):
         while True:
             x = self.v(o)
